@@ -33,7 +33,7 @@ pub fn compute_coset_elements(
     coset_size: Felt,
     coset_start_index: Felt,
     fri_group: &[Felt],
-) -> (Vec<Felt>, Felt) {
+) -> Result<(Vec<Felt>, Felt), FriError> {
     let mut coset_elements = Vec::new();
     let mut coset_x_inv = Felt::ZERO;
     #[cfg(swiftness_verif)]
@@ -48,6 +48,9 @@ pub fn compute_coset_elements(
             #[cfg(swiftness_verif)]
             verif_from_query.push(1);
         } else {
+            if sibling_witness.is_empty() {
+                return Err(FriError::MissingSiblingLeaf);
+            }
             let withness: Vec<Felt> = sibling_witness.drain(0..1).collect();
             coset_elements.push(withness[0]);
             #[cfg(swiftness_verif)]
@@ -62,7 +65,7 @@ pub fn compute_coset_elements(
         .us("from_query", &verif_from_query)
         .f("x_inv", &coset_x_inv)
         .emit();
-    (coset_elements, coset_x_inv)
+    Ok((coset_elements, coset_x_inv))
 }
 
 // Computes FRI next layer for the given queries. I.e., takes the given i-th layer queries
@@ -102,7 +105,7 @@ pub fn compute_next_layer(
             coset_size,
             coset_index * coset_size,
             &params.fri_group,
-        );
+        )?;
         verify_y_values.extend(coset_elements.iter());
 
         let fri_formula_res =
@@ -136,4 +139,6 @@ use crate::formula::fri_formula;
 pub enum FriError {
     #[error("FRI formula error: {0}")]
     FriFormulaError(#[from] crate::formula::Error),
+    #[error("not enough sibling leaves in the layer witness")]
+    MissingSiblingLeaf,
 }
